@@ -16,11 +16,15 @@ import NeumannModel.Durable.Rotate
   (`recover_then_write_full`), every step and cut of a checkpoint under every sync mode
   (`checkpoint_crash_safe`), the live store (`live_image_follows_spec`).
   `scan` lists readable keys only, live and recovered (`scan_lists_only_readable_keys`).
-  The model follows /repo after 197dc525, e374d74b, 6b9ec7ce and the fix "only `emb:` keys get an
+  The model follows /repo after 197dc525, e374d74b, 6b9ec7ce, the fix "only `emb:` keys get an
   entity-index entry / `EmbeddingSet` record / slab entry in `put_durable` and
-  `apply_wal_entry`"; the behaviours before those commits are refuted by the `_witness` theorems
-  on `Sys.ckptStepsOld`, `applyEntryOld1`/`putOld`, `applyEntryOld2` and
-  `putDurableOld`/`runOpsOld`/`applyEntryOld3`.
+  `apply_wal_entry`", a74fb575 (checkpoint holds the log mutex from its fsync to the truncation:
+  `checkpoint_serialised_with_writes_keeps_every_ack`) and f5ce42e5 (a failed `put_durable`
+  releases the entity-index entry it allocated: `failed_write_leaves_store_unchanged`,
+  `failing_session_live_store_is_coherent`); the behaviours before those commits are refuted by
+  the `_witness` theorems on `Sys.ckptStepsOld`, `applyEntryOld1`/`putOld`, `applyEntryOld2`,
+  `putDurableOld`/`runOpsOld`/`applyEntryOld3`, `Sys.withCheckpointAtOld` and
+  `failMemOld`/`runOpsFOld`.
 -/
 namespace Neumann.Durable.Props
 open Neumann.FramedLog Neumann.Durable
@@ -344,6 +348,87 @@ theorem immediate_acks_everything (sy : Sys) (ops : List Op) (hm : sy.mode = .im
     rw [List.foldl_cons]
     exact ih _ (by rw [Sys.op_mode]; exact hm) (Sys.op_immediate crc enc sy o hm h0)
 
+/-- **A checkpoint taken while another thread keeps writing loses no acknowledged write** (the
+    class `tensor_store.slab_router.checkpoint/concurrent_durable_write_lost_by_truncate`, repaired
+    by repo a74fb575, for ALL states, operation lists and schedules).  `checkpoint` holds the log
+    mutex from its fsync to the truncation and durable writers take it before they log, so every
+    schedule of a writer's operations and a checkpoint is `Sys.withCheckpointAt … i`: `i`
+    operations, the whole checkpoint, the rest.  From ANY reachable disk state, recovered and
+    reopened in `Immediate` mode, for EVERY operation list and EVERY `i`: the running store ends
+    as if no checkpoint had been taken, and after the last operation returned, recovery from the
+    disk (new snapshot + log, any cut the sync state allows) answers every key outside the
+    `_cache:` class exactly as the running store — every write acknowledged before, "during" and
+    after the checkpoint is there.  (Released between the steps, the mutex allowed
+    `Sys.withCheckpointAtOld`, for which this fails: `checkpoint_concurrent_write_lost_witness`.) -/
+theorem checkpoint_serialised_with_writes_keeps_every_ack (hc : CodecOK crc enc dec) {snap : Option Store}
+    {f : Bytes} {tr : Trace} (h : Reach crc enc dec snap f tr) (mem0 : Store)
+    (hr : recover crc dec snap f = .ok mem0) (ops : List Op) (i id : Nat)
+    (hfit : Fits enc (runOps mem0 ops).1) (hid : (enc (.checkpoint id)).length < U32) :
+    (Sys.withCheckpointAt crc enc ⟨.immediate, Wal.openOn f, mem0, snap⟩ ops i id).mem = (runOps mem0 ops).2 ∧
+    ∀ n, ∃ r,
+      recover crc dec (Sys.withCheckpointAt crc enc ⟨.immediate, Wal.openOn f, mem0, snap⟩ ops i id).snap
+        ((Sys.withCheckpointAt crc enc ⟨.immediate, Wal.openOn f, mem0, snap⟩ ops i id).crashFile n) = .ok r ∧
+      ∀ k, isCacheKey k = false → get r k = get (runOps mem0 ops).2 k := by
+  have hsplit : ops.take i ++ ops.drop i = ops := List.take_append_drop i ops
+  have hfit' := hfit
+  rw [← hsplit, runOps_append_fst] at hfit'
+  have hfitA : Fits enc (runOps mem0 (ops.take i)).1 := fun e he => hfit' e (List.mem_append_left _ he)
+  have hfitB : Fits enc (runOps (runOps mem0 (ops.take i)).2 (ops.drop i)).1 :=
+    fun e he => hfit' e (List.mem_append_right _ he)
+  -- the writer's first `i` operations
+  obtain ⟨hf1, hm1⟩ := sys_log_is_logBytes (crc := crc) (enc := enc) ⟨.immediate, Wal.openOn f, mem0, snap⟩ (ops.take i)
+  obtain ⟨hs1, hmo1⟩ := foldl_op_snap_mode crc enc ⟨.immediate, Wal.openOn f, mem0, snap⟩ (ops.take i)
+  generalize hsy1 : (ops.take i).foldl (Sys.op crc enc) ⟨.immediate, Wal.openOn f, mem0, snap⟩ = sy1 at hf1 hm1 hs1 hmo1
+  have hM1 : Good sy1.mem := by rw [hm1]; exact good_runOps (reach_good hc h mem0 hr) _
+  -- the checkpoint, as one block
+  have hsy2 : (Sys.checkpoint crc enc sy1 id).mem = sy1.mem ∧ (Sys.checkpoint crc enc sy1 id).snap = some sy1.mem ∧
+      (Sys.checkpoint crc enc sy1 id).wal.file = [] ∧ (Sys.checkpoint crc enc sy1 id).wal.syncedLen = 0 ∧
+      (Sys.checkpoint crc enc sy1 id).mode = .immediate := by
+    exact ⟨rfl, rfl, rfl, rfl, hmo1⟩
+  obtain ⟨h2m, h2s, h2f, h2l, h2mo⟩ := hsy2
+  -- the rest of the writer's operations
+  obtain ⟨hf3, hm3⟩ := sys_log_is_logBytes (crc := crc) (enc := enc) (Sys.checkpoint crc enc sy1 id) (ops.drop i)
+  obtain ⟨hs3, -⟩ := foldl_op_snap_mode crc enc (Sys.checkpoint crc enc sy1 id) (ops.drop i)
+  have hsync := immediate_acks_everything (crc := crc) (enc := enc) (Sys.checkpoint crc enc sy1 id) (ops.drop i) h2mo
+    (by rw [h2l, h2f]; rfl)
+  have hmem : (Sys.withCheckpointAt crc enc ⟨.immediate, Wal.openOn f, mem0, snap⟩ ops i id).mem
+      = (runOps mem0 ops).2 := by
+    unfold Sys.withCheckpointAt
+    rw [hsy1, hm3, h2m, hm1, ← runOps_append_snd, hsplit]
+  refine ⟨hmem, fun n => ?_⟩
+  unfold Sys.withCheckpointAt
+  rw [hsy1]
+  have hcf : ((ops.drop i).foldl (Sys.op crc enc) (Sys.checkpoint crc enc sy1 id)).crashFile n
+      = logBytes crc enc (runOps sy1.mem (ops.drop i)).1 := by
+    unfold Sys.crashFile
+    rw [List.take_of_length_le (by rw [hsync]; exact Nat.le_max_right _ _), hf3, h2f, h2m, List.nil_append]
+  rw [hcf, hs3, h2s]
+  have hplain := runOps_plain sy1.mem (ops.drop i)
+  have hfitB' : Fits enc (runOps sy1.mem (ops.drop i)).1 := by rw [hm1]; exact hfitB
+  have hrec := recover_full hc (some sy1.mem) _ hfitB' (fun e he => (hplain e he).1)
+  have hpl := afterLastCkpt_append_plain [] (runOps sy1.mem (ops.drop i)).1 (fun e he => (hplain e he).2)
+  rw [List.nil_append, afterLastCkpt_nil, List.nil_append] at hpl
+  rw [hpl] at hrec
+  refine ⟨_, hrec, fun k hk => ?_⟩
+  have hgr : Good (replay sy1.mem (runOps sy1.mem (ops.drop i)).1) := by
+    have := good_replay_take hM1 hM1 (sim_refl _) (ops.drop i) (runOps sy1.mem (ops.drop i)).1.length
+    rwa [List.take_length] at this
+  have hgl : Good (runOps mem0 ops).2 := good_runOps (reach_good hc h mem0 hr) ops
+  show get (replay ((some sy1.mem).getD Store.empty) _) k = _
+  rw [show (some sy1.mem).getD Store.empty = sy1.mem from rfl, good_get hgr k hk, good_get hgl k hk,
+    replay_md, runOps_replay, ← runOps_md, hm1, ← runOps_append_snd, hsplit]
+
+/-- non-vacuity: a writer's three operations with the checkpoint scheduled after the first — the
+    first write is in the snapshot, the log was truncated by the checkpoint and holds the records
+    of the two later operations (24 bytes, all synced) -/
+example :
+    let ops := [Op.put [97] ⟨[1], none⟩, Op.put [107] ⟨[2], none⟩, Op.delete [97]]
+    let sy := Sys.withCheckpointAt (fun _ => 0) toyEnc ⟨.immediate, Wal.openOn [], Store.empty, none⟩ ops 1 0
+    Reach (fun _ => 0) toyEnc toyDec none [] [] ∧ recover (fun _ => 0) toyDec none [] = .ok Store.empty ∧
+    sy.snap = some (runOps Store.empty (ops.take 1)).2 ∧ sy.wal.file.length = 24 ∧
+    sy.wal.syncedLen = 24 := by
+  refine ⟨.init, by decide +kernel, by decide +kernel, by decide +kernel, by decide +kernel⟩
+
 /-! ### the acknowledgement rule of the three sync modes -/
 
 /-- **Every sync mode, any script of operations and explicit syncs, any crash cut** (`Immediate`,
@@ -521,22 +606,84 @@ theorem size_limited_session_is_a_plan (maxSize : Nat) (sy : Sys) (ops : List Op
     · rw [List.foldl_cons, hm, runOpsF_cons]
       rfl
 
-/-- **A failed `put_durable` leaves its key in the entity index** (candidate finding
-    `tensor_store.slab_router.put_durable/failed_put_leaves_entity_index_entry`; `failMem` = the
-    code as it is): `put_durable emb:a` with a vector whose very first append is refused.  The
-    operation returns an error and no record is logged, but `index.get_or_create(key)` ran before
-    the append: on the LIVE store `exists` says true and `scan` lists a key that no successful write
-    created and that `get` rejects — `scan_lists_only_readable_keys` does not extend to sessions
-    with failing appends; a later checkpoint persists the entry.  (After a crash WITHOUT a
-    checkpoint the entry is gone: `failed_writes_are_invisible`.) -/
+/-- **A write that returned an error leaves no trace in the running store either** (the class
+    `tensor_store.slab_router.put_durable/failed_put_leaves_entity_index_entry`, repaired by repo
+    f5ce42e5, for ALL states and operations; `failMem` = the memory after an operation one of
+    whose appends was refused).  For EVERY store `s` — whatever is in its slabs and its entity
+    index — and every operation of every key class and value: `get`, `exists` and `scan` answer
+    after the failed operation exactly as before it, for every key; and the overlay invariant
+    `Good` (hence "`exists` = `get` answers", "`scan` lists readable keys only") is kept.
+    (`put_durable` allocates the entity id before it logs; it is released again on both error
+    paths: what stays is a tombstoned vocabulary slot.  Before the fix the entry stayed live:
+    `failed_put_leaves_index_entry_witness`.) -/
+theorem failed_write_leaves_store_unchanged (s : Store) (op : Op) :
+    (∀ k, get (failMem s op) k = get s k) ∧ (∀ k, exists_ (failMem s op) k = exists_ s k) ∧
+    scanKeys (failMem s op) = scanKeys s ∧ (Good s → Good (failMem s op)) :=
+  ⟨failMem_get s op, failMem_exists s op, failMem_scan s op, fun hg => good_failMem hg op⟩
+
+/-- non-vacuity: the failed put of a NEW `emb:` key with a vector does change the representation
+    (the id it was given is consumed: one dead slot), and an existing entry is left alone -/
+example :
+    let ka := [101, 109, 98, 58, 97]
+    let s1 := (step Store.empty (Op.put ka ⟨[1], some [1, 2, 3, 4]⟩)).2
+    (failMem Store.empty (Op.put ka ⟨[1], some [1, 2, 3, 4]⟩)).vocab = [(ka, false)] ∧
+    failMem s1 (Op.put ka ⟨[2], some [5, 6, 7, 8]⟩) = s1 ∧ s1.vocab = [(ka, true)] := by
+  decide +kernel
+
+/-- **The running store of a session with failing appends answers exactly the operations that
+    returned `Ok`** — on the store recovered from ANY disk state of the crash model, for EVERY
+    failure pattern, operation list, key class and value: `get` answers every key outside the
+    `_cache:` class with what the history of the recovered store followed by the `Ok` operations
+    wrote; `exists k` is true exactly when `get k` answers; `scan` lists exactly the readable keys.
+    (Before repo f5ce42e5 all three failed on the live store after one refused put.) -/
+theorem failing_session_live_store_is_coherent (hc : CodecOK crc enc dec) {snap : Option Store} {f : Bytes}
+    {tr : Trace} (h : Reach crc enc dec snap f tr) (r : Store) (hr : recover crc dec snap f = .ok r)
+    (plan : List (Op × Option Nat)) :
+    FullEq (runOpsF r plan).2.1 (specRun r.md (runOpsF r plan).2.2) ∧
+    ∀ k, exists_ (runOpsF r plan).2.1 k = (get (runOpsF r plan).2.1 k).isSome ∧
+      (k ∈ scanKeys (runOpsF r plan).2.1 ↔ (get (runOpsF r plan).2.1 k).isSome = true) := by
+  have hg := good_runOpsF (reach_good hc h r hr) plan
+  have hcl := classed_runOpsF (reach_classed hc h r hr) plan
+  refine ⟨good_fullEq hg (by rw [runOpsF_md]; exact MetaEq.refl _), fun k => ⟨exists_eq_get_isSome hg k, ?_⟩⟩
+  exact ⟨scan_readable hg hcl k, readable_scanned hg k⟩
+
+/-- the same on a fresh store: a refused put of a new `emb:` key with a vector between two
+    successful puts — two operations returned `Ok`, `scan` lists their keys and nothing else -/
+example :
+    let ka := [101, 109, 98, 58, 97]
+    let plan : List (Op × Option Nat) :=
+      [(Op.put [107] ⟨[1], none⟩, none), (Op.put ka ⟨[1], some [1, 2, 3, 4]⟩, some 0), (Op.put [106] ⟨[2], none⟩, none)]
+    Reach (fun _ => 0) toyEnc toyDec none [] [] ∧ recover (fun _ => 0) toyDec none [] = .ok Store.empty ∧
+    (runOpsF Store.empty plan).2.2.length = 2 ∧ scanKeys (runOpsF Store.empty plan).2.1 = [[106], [107]] ∧
+    exists_ (runOpsF Store.empty plan).2.1 ka = false :=
+  ⟨.init, by decide +kernel, by decide +kernel, by decide +kernel, by decide +kernel⟩
+
+/-- **Before repo f5ce42e5 a failed `put_durable` left its key in the entity index** (class
+    `tensor_store.slab_router.put_durable/failed_put_leaves_entity_index_entry`; `failMemOld` /
+    `runOpsFOld` = the code before the fix): `put_durable emb:a` with a vector whose very first
+    append is refused.  The operation returns an error and no record is logged, but
+    `index.get_or_create(key)` ran before the append and was not undone: on the LIVE store
+    `exists` said true and `scan` listed a key that no successful write created and that `get`
+    rejects, and a later checkpoint persisted the entry (recovery from that snapshot returns the
+    same store).  With the repaired code the same session leaves a store on which `exists` is
+    false, `scan` lists nothing and `get` rejects the key
+    (`failed_write_leaves_store_unchanged` for every state and operation). -/
 theorem failed_put_leaves_index_entry_witness :
     let ka := [101, 109, 98, 58, 97]
     let plan : List (Op × Option Nat) := [(Op.put ka ⟨[1], some [1, 2, 3, 4]⟩, some 0)]
-    let L := (runOpsF Store.empty plan).2.1
-    (runOpsF Store.empty plan).1 = [] ∧ (runOpsF Store.empty plan).2.2 = [] ∧
-    exists_ L ka = true ∧ ka ∈ scanKeys L ∧ get L ka = none ∧
-    recover (fun _ => 0) toyDec (some L) [] = .ok L := by
-  decide +kernel
+    let L := (runOpsFOld Store.empty plan).2.1
+    let L' := (runOpsF Store.empty plan).2.1
+    ((runOpsFOld Store.empty plan).1 = [] ∧ (runOpsFOld Store.empty plan).2.2 = [] ∧
+      exists_ L ka = true ∧ ka ∈ scanKeys L ∧ get L ka = none ∧ ¬ Good L ∧
+      recover (fun _ => 0) toyDec (some L) [] = .ok L) ∧
+    ((runOpsF Store.empty plan).1 = [] ∧ (runOpsF Store.empty plan).2.2 = [] ∧
+      exists_ L' ka = false ∧ scanKeys L' = [] ∧ get L' ka = none) := by
+  intro ka plan L L'
+  refine ⟨⟨by decide +kernel, by decide +kernel, by decide +kernel, by decide +kernel, by decide +kernel, ?_,
+    by decide +kernel⟩, by decide +kernel⟩
+  intro hg
+  have := hg.idxmd ka 0 (by decide +kernel) (by decide +kernel)
+  exact absurd this (by decide +kernel)
 
 /-- non-vacuity of `failed_writes_are_invisible`: a failed delete in the middle (its
     `EmbeddingDelete` and `EntityRemove` records logged, the `MetadataDelete` refused) followed
@@ -769,33 +916,58 @@ theorem checkpoint_unsynced_tail_witness :
       rw [ht] at hme
       exact absurd (hme k) (by decide +kernel)
 
-/-- **A durable write that overlaps a checkpoint is lost** (candidate finding
-    `tensor_store.slab_router.checkpoint/concurrent_durable_write_lost_by_truncate`; needs a second
-    thread, so it is outside the sequential quantifier of this property and is reported as an
-    observation).  `checkpoint` releases the log mutex between its fsync, the snapshot and the
-    marker + truncate steps.  A `put_durable` of another thread that runs after the snapshot was
-    taken and before the log is truncated is logged, fsynced and acknowledged (`Immediate`), is
-    not in the snapshot, and its record is wiped by the truncation: once the checkpoint has
-    returned, the live store answers the key but recovery from the disk, at every cut, does not.
-    (`checkpoint_crash_safe` assumes the four steps run with no write in between, which is what
-    holding the mutex across them gives: proposed/C02-checkpoint-holds-log-mutex.diff.) -/
+/-- **Before repo a74fb575 a durable write that overlapped a checkpoint was lost** (class
+    `tensor_store.slab_router.checkpoint/concurrent_durable_write_lost_by_truncate`;
+    `Sys.withCheckpointAtOld` = the schedules possible while `checkpoint` released the log mutex
+    between its fsync, the snapshot and the marker + truncate steps).  A `put_durable` of another
+    thread that ran after the snapshot was taken and before the log was truncated was logged,
+    fsynced and acknowledged (`Immediate`), was not in the snapshot, and its record was wiped by
+    the truncation: once the checkpoint had returned, the live store answered the key but
+    recovery from the disk, at every cut, did not.  With the mutex held across the four steps
+    the same two operations and the checkpoint can only be scheduled as
+    `Sys.withCheckpointAt … i` for `i = 0, 1, 2`, and recovery answers the key in each
+    (`checkpoint_serialised_with_writes_keeps_every_ack` for every state, operation list and
+    schedule). -/
 theorem checkpoint_concurrent_write_lost_witness :
     let crc : Bytes → Nat := fun _ => 0
-    let s1 := Sys.op crc toyEnc (Sys.fresh .immediate) (.put [97] ⟨[1], none⟩)
-    let s2 := s1.ckptSync.ckptSnapshot
-    let s3 := Sys.op crc toyEnc s2 (.put [107] ⟨[2], none⟩)
-    let s4 := (s3.ckptMarker crc toyEnc 0).ckptTruncate
-    s3.wal.syncedLen = s3.wal.file.length ∧ get s4.mem [107] = some ⟨[2], none⟩ ∧
-    ∀ n, ∃ r, recover crc toyDec s4.snap (s4.crashFile n) = .ok r ∧ get r [107] = none ∧
-      get r [97] = some ⟨[1], none⟩ := by
-  intro crc s1 s2 s3 s4
-  refine ⟨by decide +kernel, by decide +kernel, fun n => ?_⟩
-  have hcf : s4.crashFile n = [] := by
-    simp [s4, Sys.ckptTruncate, Wal.truncate, Sys.crashFile]
-  rw [hcf]
-  obtain ⟨r, hr, hp⟩ := exists_ok_of_okAnd (x := recover crc toyDec s4.snap [])
-    (p := fun r => decide (get r [107] = none ∧ get r [97] = some ⟨[1], none⟩)) (by decide +kernel)
-  exact ⟨r, hr, of_decide_eq_true hp⟩
+    let ops := [Op.put [97] ⟨[1], none⟩, Op.put [107] ⟨[2], none⟩]
+    let s4 := Sys.withCheckpointAtOld crc toyEnc (Sys.fresh .immediate) ops 1 1 0
+    (get s4.mem [107] = some ⟨[2], none⟩ ∧
+      ∀ n, ∃ r, recover crc toyDec s4.snap (s4.crashFile n) = .ok r ∧ get r [107] = none ∧
+        get r [97] = some ⟨[1], none⟩) ∧
+    ∀ i ∈ [0, 1, 2], ∀ n, ∃ r,
+      recover crc toyDec (Sys.withCheckpointAt crc toyEnc (Sys.fresh .immediate) ops i 0).snap
+        ((Sys.withCheckpointAt crc toyEnc (Sys.fresh .immediate) ops i 0).crashFile n) = .ok r ∧
+      get r [107] = some ⟨[2], none⟩ ∧ get r [97] = some ⟨[1], none⟩ := by
+  intro crc ops s4
+  have go : ∀ (sy : Sys) (p : Store → Bool) (n : Nat), sy.wal.syncedLen = sy.wal.file.length →
+      okAnd (recover crc toyDec sy.snap sy.wal.file) p = true →
+      ∃ r, recover crc toyDec sy.snap (sy.crashFile n) = .ok r ∧ p r = true := by
+    intro sy p n hs hp
+    have : sy.crashFile n = sy.wal.file := by
+      unfold Sys.crashFile
+      exact List.take_of_length_le (by rw [hs]; exact Nat.le_max_right _ _)
+    rw [this]
+    exact exists_ok_of_okAnd hp
+  refine ⟨⟨by decide +kernel, fun n => ?_⟩, ?_⟩
+  · obtain ⟨r, hr, hp⟩ := go s4 (fun r => decide (get r [107] = none ∧ get r [97] = some ⟨[1], none⟩)) n
+      (by decide +kernel) (by decide +kernel)
+    exact ⟨r, hr, of_decide_eq_true hp⟩
+  · intro i hi n
+    simp only [List.mem_cons, List.not_mem_nil, or_false] at hi
+    rcases hi with rfl | rfl | rfl
+    · obtain ⟨r, hr, hp⟩ := go (Sys.withCheckpointAt crc toyEnc (Sys.fresh .immediate) ops 0 0)
+        (fun r => decide (get r [107] = some ⟨[2], none⟩ ∧ get r [97] = some ⟨[1], none⟩)) n
+        (by decide +kernel) (by decide +kernel)
+      exact ⟨r, hr, of_decide_eq_true hp⟩
+    · obtain ⟨r, hr, hp⟩ := go (Sys.withCheckpointAt crc toyEnc (Sys.fresh .immediate) ops 1 0)
+        (fun r => decide (get r [107] = some ⟨[2], none⟩ ∧ get r [97] = some ⟨[1], none⟩)) n
+        (by decide +kernel) (by decide +kernel)
+      exact ⟨r, hr, of_decide_eq_true hp⟩
+    · obtain ⟨r, hr, hp⟩ := go (Sys.withCheckpointAt crc toyEnc (Sys.fresh .immediate) ops 2 0)
+        (fun r => decide (get r [107] = some ⟨[2], none⟩ ∧ get r [97] = some ⟨[1], none⟩)) n
+        (by decide +kernel) (by decide +kernel)
+      exact ⟨r, hr, of_decide_eq_true hp⟩
 
 /-- **An `emb:` key stored without a vector read another key's embedding** (class
     `tensor_store.slab_router.recover/stale_entity_id_embedding`, fixed by repo e374d74b;
